@@ -293,6 +293,7 @@ class BloomSystem(System):
         call(other.jaccard_index, f)
 
     def _queries(self, cfg, st, keys, hf, bad):
+        pristine = self.clone(st)  # taken before any query of this state: the "untouched" twin
         f = st.impl
         before = bloomlib.bloom_observation(f)
         other = self._other(cfg, hf, keys)
@@ -303,10 +304,20 @@ class BloomSystem(System):
             bad("C19", "bloom.queries_do_not_mutate", {"before": repr(before)[:300], "after": repr(after)[:300]})
         if bloomlib.bloom_observation(other) != ob:
             bad("C19", "bloom.set_ops_do_not_mutate_operand", {})
+        def full_obs(x):
+            g = x.impl
+            return (bloomlib.bloom_observation(g), call(g.estimate_elements), call(g.current_false_positive_rate),
+                    [call(g.check, k) for k in keys], call(str, g))
+
         if self.cur_depth <= cfg.get("twin_depth", 2):
-            div = twin_divergence(self, cfg, st, lambda q: self._ro(cfg, q.impl, keys, hf, self._other(cfg, hf, keys)), lambda x: bloomlib.bloom_observation(x.impl))
+            steps = 3 if self.cur_depth <= cfg.get("twin2_depth", 1) else 1
+
+            def menu(c, x):
+                return [e for e in self.events(c, x) if e[0] in ("add", "clear") or e == ("union", "other")]
+
+            div = twin_divergence(self, cfg, pristine, lambda q: self._ro(cfg, q.impl, keys, hf, self._other(cfg, hf, keys)), full_obs, steps, menu)
             if div is not None:
-                bad("C19", "bloom.queried_twin_diverges_one_step_later", div)
+                bad("C19", "bloom.queried_twin_diverges_later", div)
         # every explored object has been queried at all its ancestor states: its answers must equal those of an
         # object freshly loaded from its export (which carries no hidden query state)
         bb = call(bytes, f)
